@@ -27,7 +27,7 @@ func opTarget(op world.Op) int {
 	switch op.Kind {
 	case world.OpClone:
 		return op.B
-	case world.OpCursor, world.OpGet, world.OpIter, world.OpPersist, world.OpKeep, world.OpFlushCache:
+	case world.OpCursor, world.OpGet, world.OpIter, world.OpPersist, world.OpKeep, world.OpFlushCache, world.OpPersistFail:
 		return -1 // leaves every tree's contents alone
 	}
 	return op.A
@@ -99,7 +99,7 @@ func (m *c02Mon) After(w *world.World, op world.Op, res world.Res, pre interface
 
 func opNameOf(op world.Op) string {
 	return map[world.OpKind]string{world.OpIns: "Insert", world.OpDel: "Delete", world.OpPersist: "MakeRoot", world.OpReload: "MakeRoot+LoadMast", world.OpReloadJSON: "MakeRoot+LoadMast",
-		world.OpKeep: "MakeRoot", world.OpLoad: "LoadMast(cache)", world.OpLoadNoCache: "LoadMast(nocache)", world.OpClone: "Clone", world.OpCursor: "Cursor", world.OpGet: "Get", world.OpIter: "Iter", world.OpDrop: "drop", world.OpFlushCache: "cache-flush"}[op.Kind]
+		world.OpKeep: "MakeRoot", world.OpLoad: "LoadMast(cache)", world.OpLoadNoCache: "LoadMast(nocache)", world.OpClone: "Clone", world.OpCursor: "Cursor", world.OpGet: "Get", world.OpIter: "Iter", world.OpDrop: "drop", world.OpFlushCache: "cache-flush", world.OpPersistFail: "failing-MakeRoot"}[op.Kind]
 }
 
 func (m *c02Mon) OnState(w *world.World, hist []world.Op) []explore.Finding {
@@ -183,7 +183,16 @@ var c02Captures = map[string][]world.Op{
 	// the cache lost its entries after the version was persisted: both loads decode nodes from the
 	// store, the second one is served the objects the first one put into the cache
 	"root+coldload-twice": {{Kind: world.OpKeep, A: 0, B: 0}, {Kind: world.OpFlushCache}, {Kind: world.OpLoad, A: 1, B: 0}, {Kind: world.OpLoad, A: 2, B: 0}},
+	// the version is captured after a MakeRoot that failed half-way (some nodes written, others not) and was retried
+	"failedflush0+root+load": {{Kind: world.OpPersistFail, A: 0, V: 0}, {Kind: world.OpKeep, A: 0, B: 0}, {Kind: world.OpLoad, A: 1, B: 0}},
+	"failedflush1+root+load": {{Kind: world.OpPersistFail, A: 0, V: 1}, {Kind: world.OpKeep, A: 0, B: 0}, {Kind: world.OpLoad, A: 1, B: 0}},
+	"failedflush2+root+load": {{Kind: world.OpPersistFail, A: 0, V: 2}, {Kind: world.OpKeep, A: 0, B: 0}, {Kind: world.OpLoad, A: 1, B: 0}},
+	"failedflush0+persist+clone": {{Kind: world.OpPersistFail, A: 0, V: 0}, {Kind: world.OpPersist, A: 0}, {Kind: world.OpClone, A: 0, B: 1}},
+	"failedflush1+persist+clone": {{Kind: world.OpPersistFail, A: 0, V: 1}, {Kind: world.OpPersist, A: 0}, {Kind: world.OpClone, A: 0, B: 1}},
+	"failedflush2+persist+clone": {{Kind: world.OpPersistFail, A: 0, V: 2}, {Kind: world.OpPersist, A: 0}, {Kind: world.OpClone, A: 0, B: 1}},
 }
+
+var c02FailedFlushCaptures = []string{"failedflush0+root+load", "failedflush1+root+load", "failedflush2+root+load", "failedflush0+persist+clone", "failedflush1+persist+clone", "failedflush2+persist+clone"}
 
 func c02Ops(cfg *world.Config, slots int, allVals bool) []world.Op {
 	var ops []world.Op
@@ -201,6 +210,7 @@ func c02Ops(cfg *world.Config, slots int, allVals bool) []world.Op {
 			}
 		}
 		ops = append(ops, world.Op{Kind: world.OpPersist, A: s}, world.Op{Kind: world.OpReload, A: s})
+		ops = append(ops, FlushFaultOps(cfg, s)...)
 	}
 	if !cfg.InMemory {
 		ops = append(ops, world.Op{Kind: world.OpKeep, A: 0, B: 1}, world.Op{Kind: world.OpKeep, A: 1, B: 1}, world.Op{Kind: world.OpLoad, A: 1, B: 1}, world.Op{Kind: world.OpLoad, A: 1, B: 0})
@@ -267,6 +277,8 @@ func C02(run *report.Run) {
 			{world.LKeyCfg(2, []uint8{0, 2, 0, 1, 0}, 1, B, "big"), []string{"clone", "root+load"}, 2, true, 0},
 			{deep(B, "big"), []string{"root+load", "clone"}, 2, true, 1},
 			{world.IntCfg(2, []int{1, 2, 3, 4}, []interface{}{[]int{1}, []int{2, 3}}, []int{}, M, "big"), []string{"clone", "root+load"}, 2, true, 0},
+			// captures taken after a failed and retried MakeRoot; failing MakeRoot calls also in the continuations
+			{world.WithFlushFaults(world.UintCfg(2, urange(1, 5), 1, B, "big")), c02FailedFlushCaptures, 2, true, 0},
 			// base sets merged on the exact key: the same tree reached with spare capacity in its node slices is a base of its own
 			{world.ExactKey(world.UintCfg(2, urange(1, 4), 1, B, "big")), []string{"clone", "root+load", "cursor"}, 2, true, 0},
 			{world.ExactKey(world.IntCfg(4, []int{1, 4, 5, 8, 9, 12}, []interface{}{"a"}, "", B, "big")), []string{"clone", "root+load"}, 2, true, 0},
